@@ -112,17 +112,46 @@ contract('giscanner.transformer.Transformer.create_type_from_user_string', param
 
 DOT = '.'
 FIELD_KEY = "self._get_annotation_name(parent) + DOT + field.name"
+
+
+def field_annotations(self, parent, parent_block, field):
+    """the annotations that apply to a field: its own `Struct.field:` block, else its @field line in the parent block"""
+    block = self._blocks.get(self._get_annotation_name(parent) + '.' + field.name)
+    if block:
+        return block.annotations
+    if not parent_block:
+        return None
+    tag = parent_block.params.get(field.name)
+    if not tag:
+        return None
+    return tag.annotations
+
+
+def field_site_ok(self, parent, parent_block, field):
+    """the field has a type (or gets one from a (type) annotation) and an (array length=...) annotation stands on a field of
+    a record or union; on a field of a class the length lookup raises AttributeError, which the function prints and drops"""
+    fa = field_annotations(self, parent, parent_block, field)
+    if fa is None:
+        return True
+    if not fa.get('type') and field.type is None:
+        return False
+    if 'array' in fa and fa['array'].get('length'):
+        return isinstance(parent, ast.Compound)
+    return True
+
+
 contract(MT + '_apply_annotations_field',
          params={'self': 'MainTransformer', 'parent': 'Class|Interface|Record|Union', 'parent_block': 'GtkDocCommentBlock?', 'field': 'Field'},
          props=('C03',), requires=['field.name is not None', 'self._get_annotation_name(parent) is not None',
-                                   'options_ok(self._blocks.get(%s))' % FIELD_KEY],
+                                   'options_ok(self._blocks.get(%s))' % FIELD_KEY,
+                                   'field_site_ok(self, parent, parent_block, field)'],
          modifies=GENERIC_FIELDS[:-1] + ['*.attributes{}', 'field.type', 'field.doc', 'field.doc_position', '*.direction', '*.transfer',
                                          '*.element_type', '*.key_type', '*.value_type', 'LOGGER._warning_count']
          if False else ['*.doc', '*.doc_position', '*.version', '*.version_doc', '*.deprecated', '*.deprecated_doc', '*.stability',
                         '*.stability_doc', '*.skip', '*.foreign', '*.is_constructor', '*.is_method', '*.set_property', '*.get_property',
                         'field.attributes{}', '*.type', '*.direction', '*.transfer', '*.element_type', '*.key_type', '*.value_type',
                         'LOGGER._warning_count'],
-         raises={'KeyError': 'True', 'SystemExit': 'True', 'AssertionError': 'True'},
+         raises={'KeyError': 'True', 'SystemExit': 'True', 'AssertionError': 'True', 'ValueError': 'True'},
          local_modes={},
          ensures={
              'C03.field.block_is_the_one_named_Struct.field': "all_calls('_apply_annotations_annotated', "
@@ -132,4 +161,45 @@ contract(MT + '_apply_annotations_field',
              'C03.field.container_annotations_from_that_block': "implies(bool(self._blocks.get(%s)), all_calls('_adjust_container_type', "
                                                                 "'arg_node is field and arg_annotations is self._blocks.get(%s).annotations'))"
                                                                 % (FIELD_KEY, FIELD_KEY),
+         })
+
+
+# ---- "Class:property" blocks -----------------------------------------------------------------------------------------
+from . import c01_param_annotations   # noqa  (_resolve_toplevel)
+
+
+def prop_block(self, parent, prop):
+    """the comment block of a property is looked up as  <C name of the owner>:<property name>"""
+    return self._blocks.get('%s:%s' % (self._get_annotation_name(parent), prop.name))
+
+
+def first_of(block, name):
+    opts = block.annotations.get(name)
+    return opts[0] if opts else None
+
+
+PB = 'prop_block(self, parent, prop)'
+contract(MT + '_apply_annotations_property',
+         params={'self': 'MainTransformer', 'parent': 'Class|Interface', 'prop': 'Property'}, props=('C03',),
+         requires=['prop.type is not None', 'options_ok(%s)' % PB,
+                   "implies(%s is not None and 'transfer' in %s.annotations, len(%s.annotations['transfer']) >= 1)" % (PB, PB, PB)],
+         let={'block': PB},
+         modifies=[f.replace('node.', 'prop.') for f in GENERIC_FIELDS] +
+                  ['prop.transfer', 'prop.type', 'prop.setter', 'prop.getter', 'prop.default_value', 'LOGGER._warning_count'],
+         raises={'KeyError': 'True', 'AssertionError': 'True'},
+         ensures={
+             'C03.property.block_is_looked_up_by_owner_colon_name':
+                 "all_calls('_apply_annotations_annotated', 'arg_node is prop and arg_block is block')",
+             'C03.property.no_block_no_change':
+                 "implies(block is None, prop.transfer == old(prop.transfer) and prop.type is old(prop.type) and "
+                 "prop.setter == old(prop.setter) and prop.getter == old(prop.getter) and prop.default_value == old(prop.default_value))",
+             'C03.property.transfer_as_written_floating_means_none':
+                 "implies(block is not None and 'transfer' in block.annotations, prop.transfer == "
+                 "('none' if block.annotations['transfer'][0] == 'floating' else block.annotations['transfer'][0]))",
+             'C03.property.setter_getter_default_value':
+                 "implies(block is not None, prop.setter == keep_or(first_of(block, 'setter'), old(prop.setter)) and "
+                 "prop.getter == keep_or(first_of(block, 'getter'), old(prop.getter)) and "
+                 "prop.default_value == keep_or(first_of(block, 'default-value'), old(prop.default_value)))",
+             'C03.property.type_kept_without_type_annotation':
+                 "implies(block is None or not block.annotations.get('type'), prop.type is old(prop.type))",
          })
